@@ -5,7 +5,7 @@
    the 14 programs in AtomicListProofs.instances; NOT for all programs): structure, accounting,
    refinement, progress.  The parametric statements are kept in AtomicListProofs.v (summary).
    FOR ALL programs / sizes / schedules: the refutations below are witnesses; lock discipline and
-   ghost erasure are parametric (when present below). *)
+   ghost erasure are parametric. *)
 From Coq Require Import List Bool Arith.
 From V Require Import Base.Sched Proto.AtomicListDefs Proto.AtomicListProofs.
 Import ListNotations.
@@ -48,6 +48,14 @@ Theorem C15_list_lock_exclusive_all : forall nn progs sched,
 Proof. exact lock_exclusive. Qed.
 Print Assumptions C15_list_lock_exclusive_all.
 
+(* parametric: the specification ghosts are erasable *)
+Theorem C15_list_ghosts_erasable : forall sched a b tr,
+  erase a = erase b ->
+  erase (fst (run step sched (a, tr))) = erase (fst (run step sched (b, tr))) /\
+  snd (run step sched (a, tr)) = snd (run step sched (b, tr)).
+Proof. exact run_erase. Qed.
+Print Assumptions C15_list_ghosts_erasable.
+
 Theorem C15_list_lock_exclusive : forall s t u k,
   locks_ok s = true -> t < length (thr s) -> u < length (thr s) ->
   In k (held t (tpc (cur s t))) -> In k (held u (tpc (cur s u))) -> t = u.
@@ -72,6 +80,14 @@ Theorem C15_list_empty_linearizable_refuted :
     exists s', step 1 s = Some (s', [ELdLink (LHead 0) (PSent 0) true; ERet (RBool true)]) /\ embad s' = false.
 Proof. exact empty_linearizable_refuted. Qed.
 Print Assumptions C15_list_empty_linearizable_refuted.
+
+Theorem C15_list_try_lock_checking_aba_outside_interface :
+  exists sched,
+    let s := final 1 [[B 0]; [D; U; D]] sched in
+    quiescent s = true /\ crash s = false /\
+    l_alatch (lst s 0) = true /\ l_head (lst s 0) = PNode 0 /\ l_lself (lst s 0) = Some (LHead 0).
+Proof. exact try_lock_checking_aba_outside_interface. Qed.
+Print Assumptions C15_list_try_lock_checking_aba_outside_interface.
 
 (* the hypotheses are met by non-trivial runs *)
 Example C15_list_run_mutex :
